@@ -790,6 +790,25 @@ def rule_removal_helpers(ctx, R):
                                 hooks=BH(repo, ["_remove_backreference"]))
             got = [e[2] for e in out[2] if e[0] == "_remove_backreference"]
             ok = out[0] == "return" and sorted(got) == sorted(fields)
+            if not ok and out[0] == "return" and same and \
+                    set(got) <= set(fields):
+                # fewer calls are as good when the calls made clear every
+                # location the skipped ones would have cleared
+                f_bk = shared.cls.find_method("_backreference_keys")
+                ln.attrs.setdefault("record_type", t.RECORD_TYPE)
+                try:
+                    def keys(ks):
+                        acc = set()
+                        for k in ks:
+                            o = eval_function(repo, f_bk, [shared, ln, k],
+                                              hooks=LineHooks(repo))
+                            if o[0] != "return" or o[1] is None:
+                                raise Unsupported("no keys")
+                            acc |= set(o[1])
+                        return acc
+                    ok = keys(got) >= keys(fields)
+                except Unsupported:
+                    ok = False
             ctx.oblige(ok)
             if not ok:
                 ctx.violation(R, f_rfb.short, "class=%s,%s" % (
